@@ -30,8 +30,11 @@ class PyRaise(Exception):
     """A Python exception propagating in the interpreted program."""
 
     def __init__(self, exc: Any) -> None:
-        super().__init__(repr(exc))
+        super().__init__()  # repr is lazy (__str__): printing a large symbolic argument costs seconds per raise
         self.exc = exc
+
+    def __str__(self) -> str:
+        return repr(self.exc)
 
     @property
     def cls(self) -> type:
@@ -167,6 +170,10 @@ class Exec:
         """With ``S.abstract_regex = True`` the pruning solver sees every regex membership atom as an
         opaque boolean (z3's sequence solver can hang past its timeout on memberships + disequalities).
         A weaker condition: it can only keep extra paths; obligations still carry the real atoms."""
+        if getattr(self, "prune_lia", False):  # opt-in: linear-arithmetic view (pyvc/prune.py), also a weaker condition
+            from .prune import lia_view
+
+            return lia_view(self, t)
         if not getattr(self, "abstract_regex", False):
             return t
         atoms = self.__dict__.setdefault("_re_atoms", {})
@@ -190,6 +197,18 @@ class Exec:
             return True
         if z3.is_false(st):
             return False
+        if getattr(self, "syntactic_pruning", False):
+            # ``S.syntactic_pruning = True``: the contract opts out of solver-based pruning (a weaker test: it can only
+            # keep extra paths, whose obligations are then vacuous); a branch is dropped only when its condition
+            # literally contradicts a conjunct of the path condition
+            def strip(x: Any) -> Any:  # not(not(x)) -> x
+                while z3.is_not(x) and z3.is_not(x.arg(0)):
+                    x = x.arg(0).arg(0)
+                return x
+
+            t = strip(t)
+            neg = t.arg(0) if z3.is_not(t) else z3.Not(t)
+            return not any(z3.eq(strip(c), neg) for c in self.pc)
         self.explorer.feas_checks += 1
         try:
             r = self.solver.check(self._prune_view(t))
